@@ -138,12 +138,89 @@ SkipCount(oldOpt, new0, buf) ==
               ELSE [x \in 1..(old - new) |-> DPushFront(buf[old - x + 1])]
          ELSE <<>>
 
+(************************** Filter / FilterMap *****************************)
+(* filter.rs keeps, besides the inner stream, the ascending list of the     *)
+(* ORIGINAL indices of the items that passed (`filtered_indices`) and the   *)
+(* original length.  st = [fi |-> sequence of original indices, olen |-> n] *)
+(* P(v): the item passes; F(v): what it is mapped to (identity for Filter). *)
+PartitionPoint(fi, x) == Cardinality({j \in 1..Len(fi) : fi[j] < x})
+ShiftFrom(fi, k, by) == [j \in 1..Len(fi) |-> IF j > k THEN fi[j] + by ELSE fi[j]]
+InsertAt1(sq, pos, x) == SubSeq(sq, 1, pos - 1) \o <<x>> \o SubSeq(sq, pos, Len(sq))
+RemoveAt1(sq, pos) == SubSeq(sq, 1, pos - 1) \o SubSeq(sq, pos + 1, Len(sq))
+FSt(fi, olen) == [fi |-> fi, olen |-> olen]
+FRes(st, out) == [st |-> st, out |-> out]
+
+(* indices (relative to base) and mapped values of the items of vs that pass *)
+NthOf(J, x) == CHOOSE j \in J : Cardinality({i \in J : i < j}) = x - 1
+KeptOf(vs, base, P(_), F(_)) ==
+    LET J == {j \in 1..Len(vs) : P(vs[j])} IN
+    [idx  |-> [x \in 1..Cardinality(J) |-> base + NthOf(J, x) - 1],
+     vals |-> [x \in 1..Cardinality(J) |-> F(vs[NthOf(J, x)])]]
+
+FilterStep(st, d, P(_), F(_)) ==
+    LET fi == st.fi  olen == st.olen IN
+    CASE d.k = "Append" ->
+            LET k == KeptOf(d.vs, olen, P, F) IN
+            FRes(FSt(fi \o k.idx, olen + Len(d.vs)), IF k.vals = <<>> THEN <<>> ELSE <<DAppend(k.vals)>>)
+      [] d.k = "Clear" -> FRes(FSt(<<>>, 0), <<DClear>>)
+      [] d.k = "PushFront" ->
+            LET sh == ShiftFrom(fi, 0, 1) IN
+            IF P(d.v) THEN FRes(FSt(<<0>> \o sh, olen + 1), <<DPushFront(F(d.v))>>) ELSE FRes(FSt(sh, olen + 1), <<>>)
+      [] d.k = "PushBack" ->
+            IF P(d.v) THEN FRes(FSt(Append(fi, olen), olen + 1), <<DPushBack(F(d.v))>>) ELSE FRes(FSt(fi, olen + 1), <<>>)
+      [] d.k = "PopFront" ->
+            IF fi # <<>> /\ fi[1] = 0 THEN FRes(FSt(ShiftFrom(Tail(fi), 0, -1), olen - 1), <<DPopFront>>)
+            ELSE FRes(FSt(ShiftFrom(fi, 0, -1), olen - 1), <<>>)
+      [] d.k = "PopBack" ->
+            IF fi # <<>> /\ fi[Len(fi)] = olen - 1 THEN FRes(FSt(SubSeq(fi, 1, Len(fi) - 1), olen - 1), <<DPopBack>>)
+            ELSE FRes(FSt(fi, olen - 1), <<>>)
+      [] d.k = "Insert" ->
+            LET k == PartitionPoint(fi, d.i)  sh == ShiftFrom(fi, k, 1) IN
+            IF P(d.v) THEN FRes(FSt(InsertAt1(sh, k + 1, d.i), olen + 1), <<DInsert(k, F(d.v))>>) ELSE FRes(FSt(sh, olen + 1), <<>>)
+      [] d.k = "Set" ->
+            LET k == PartitionPoint(fi, d.i)
+                was == k < Len(fi) /\ fi[k + 1] = d.i
+            IN IF was
+               THEN IF P(d.v) THEN FRes(st, <<DSet(k, F(d.v))>>) ELSE FRes(FSt(RemoveAt1(fi, k + 1), olen), <<DRemove(k)>>)
+               ELSE IF P(d.v) THEN FRes(FSt(InsertAt1(fi, k + 1, d.i), olen), <<DInsert(k, F(d.v))>>) ELSE FRes(st, <<>>)
+      [] d.k = "Remove" ->
+            LET k == PartitionPoint(fi, d.i)
+                was == k < Len(fi) /\ fi[k + 1] = d.i
+                fi2 == IF was THEN RemoveAt1(fi, k + 1) ELSE fi
+            IN FRes(FSt(ShiftFrom(fi2, k, -1), olen - 1), IF was THEN <<DRemove(k)>> ELSE <<>>)
+      [] d.k = "Truncate" ->
+            LET nf == Cardinality({j \in 1..Len(fi) : fi[j] < d.i}) IN
+            IF nf < Len(fi) THEN FRes(FSt(SubSeq(fi, 1, nf), d.i), <<DTruncate(nf)>>) ELSE FRes(FSt(fi, d.i), <<>>)
+      [] d.k = "Reset" ->
+            LET k == KeptOf(d.vs, 0, P, F) IN FRes(FSt(k.idx, Len(d.vs)), <<DReset(k.vals)>>)
+
+(* the bookkeeping that corresponds to a source s *)
+FilterStateOf(s, P(_)) ==
+    LET J == {j \in 1..Len(s) : P(s[j])} IN
+    FSt([x \in 1..Cardinality(J) |-> NthOf(J, x) - 1], Len(s))
+FilterViewOf(s, P(_), F(_)) == MapSeq(SelectSeq(s, P), F)
+
+(* one input diff on source s: bookkeeping stays exact, emitted diffs applicable and rebuilding the view *)
+FilterStepOK(s, d, P(_), F(_)) ==
+    LET r  == FilterStep(FilterStateOf(s, P), d, P, F)
+        s2 == Apply(d, s)
+        v  == FilterViewOf(s, P, F)
+    IN /\ r.st = FilterStateOf(s2, P)
+       /\ AllApplicable(r.out, v) /\ ApplyAll(r.out, v) = FilterViewOf(s2, P, F)
+
 (***************************************************************************)
 (* What the transcription is checked against (Adapters.tla's view rule)    *)
 (***************************************************************************)
+(* the concrete predicate / mapping the one-step conformance run instantiates Filter / FilterMap with *)
+AlgoKeep(v) == v % 2 = 1
+AlgoId(v) == v
+AlgoMap(v) == v + 100
+
 ViewOf(kind, p, s) ==
     CASE kind = "head" -> IF p < 0 THEN <<>> ELSE HeadView(s, p)
       [] kind = "tail" -> IF p < 0 THEN <<>> ELSE TailView(s, p)
+      [] kind = "filter" -> FilterViewOf(s, AlgoKeep, AlgoId)
+      [] kind = "filter_map" -> FilterViewOf(s, AlgoKeep, AlgoMap)
       [] OTHER         -> IF p < 0 THEN <<>> ELSE SkipView(s, p)
 
 AlgoDiff(kind, d, p, prev, buf) ==
